@@ -2,7 +2,7 @@
 
 Same programs and streaming seam as C05; inputs now include missing values in every
 encoding (None / NaN / +inf / -inf), both nones_are_zeros settings per stream and per
-build, and operand values that make a divisor exactly zero.
+build, operand values that make a divisor exactly zero, and finite values whose results overflow.
 """
 from __future__ import annotations
 
@@ -37,7 +37,15 @@ def inputs_for(names, tier):
     # zero divisors
     for combo in itertools.product((0.0, 3.0, -3.0), repeat=len(names)):
         out.append(dict(zip(names, combo)))
+    # finite inputs whose sums / products / quotients overflow (a result that is not finite is "undefined")
+    for vec in OVERFLOW:
+        out.append({n: vec[i % 3] for i, n in enumerate(names)})
     return out
+
+
+OVERFLOW = [(-1e200, 1e200, 1e200), (-1.5e308, -1.5e308, 1.5e308), (1.5e308, -1.5e308, -1.5e308), (-1e200, 1e-200, 3.0),
+            (1e200, 1e200, -1e-200)]
+N_OVERFLOW = len(OVERFLOW)
 
 
 def jsonv(v):
@@ -57,6 +65,12 @@ def check_tree(tree, tier, nz_leaf, nz_build):
         got[k] = val
     for k, vals in enumerate(inputs):
         exp = F.ref_eval(tree, vals, nz_leaf, nz_build)
+        if k >= len(inputs) - N_OVERFLOW and k in got:
+            # overflow vectors: whether an intermediate overflow makes the result "undefined" is left open
+            # (x / inf == 0 is finite); accept both readings, a non-finite *final* result is None in both
+            alt = F.ieee_eval(tree, vals, nz_leaf, nz_build)
+            if (got[k] is None and alt is None) or (got[k] is not None and alt is not None and F.close(got[k], alt)):
+                continue
         if k not in got:
             v.append(("exactly_one_sample_per_timestamp", {"timestamp": k, "inputs": jsonv(vals), "expected": exp}))
         elif (got[k] is None) != (exp is None):
